@@ -80,11 +80,13 @@ def pki_probe():
     prefix = p2[len(p1) + len(COMMA):]
     header = p1[:len(p1) - len(prefix)]
     eku = pki.get_ext_config(None, '')
+    pip = pki.get_ext_config(['127.0.0.1'], None)
+    ip_prefix = pip[len(header):len(pip) - len(b'127.0.0.1')]
     with pki.ssl_config([''], None) as (path, _has):
         with open(path, 'rb') as f:
             content = f.read()
     section = content[len(pki.DEFAULT_CONFIG):len(content) - len(p1)]
-    return header, prefix, eku, section, pki.DEFAULT_CONFIG
+    return header, prefix, eku, section, pki.DEFAULT_CONFIG, ip_prefix
 
 
 def collect():
@@ -155,10 +157,11 @@ def collect():
     B('hdrProxyAuthorization', _HH.PROXY_AUTHORIZATION)
     B('hdrProxyConnection', _HH.PROXY_CONNECTION)
     # C11: pki ext-file / config literals
-    _h, _p, _e, _s, _d = pki_probe()
+    _h, _p, _e, _s, _d, _ip = pki_probe()
     B('comma', C.COMMA)
     B('pkiSanHeader', _h)
     B('pkiSanEntryPrefix', _p)
+    B('pkiSanIpEntryPrefix', _ip, 'prefix of the entry written for a name ipaddress.ip_address accepts')
     B('pkiEkuHeader', _e)
     B('pkiProxySection', _s)
     B('pkiDefaultConfig', _d)
